@@ -26,7 +26,7 @@ def main():
     P2 = MOD + '/pkg/lifecycle.'
     c2.load([P2 + 'VerifC16Lifecycle'])
     j2 = [Job(P2 + 'VerifC16Lifecycle', a, cfg=cfg, max_paths=100000) for a in
-          ([(1, 0, 0), (1, 1, 0), (1, 0, 1)] if t == 'quick' else [(1, 0, 0), (1, 1, 0), (1, 0, 1), (2, 0, 0), (1, 2, 0)])]
+          ([(1, 0, 0), (1, 1, 0)] if t == 'quick' else [(1, 0, 0), (1, 1, 0), (1, 0, 1), (2, 0, 0), (1, 2, 0)])]
     res += c2.run_jobs(j2)
     c2.cleanup()
     # connectedness manager (root package): status word and notify internals are visible cells, maps pre-populated
